@@ -7,4 +7,4 @@ exec 9>.build.lock
 flock 9
 { cat _CoqProject.in; find theories -name '*.v' | sort; } > _CoqProject
 coq_makefile -f _CoqProject -o Makefile >/dev/null
-timeout 1500 make -j16 "$@"
+timeout 1500 make -k -j16 "$@"
